@@ -34,12 +34,13 @@ class C16(Spec):
             "with the single-threaded run on JSON documents only (on other texts only crash/hang/race/panic are judged)")
     trusted_base = ["go/factx_access (go/ast, ~700 lines): prints the receiver accesses of every ast.Node method in source order",
                     "Go race detector (-race build of the harness) as the observer of data races in the real code",
-                    "assumption A1: the value assign() publishes into a concurrently readable node is never lazy, its container "
-                    "children are raw nodes with their own mutex (syntactic facts children_raw_nodes_own_mutex / parseRaw_lock_branch); "
-                    "each child is another instance of the one-node protocol that is modelled",
+                    "children: the composition is argued from proved facts (creation under the parent's write lock, publication by "
+                    "the release-store, no write after publication, no race on the memory behind p; the parser builds only raw "
+                    "children with their own mutex and no lazy node under noLazy=loadOnce=true) - the multi-node system itself is "
+                    "not a Lean object: each child is another instance of the one-node system",
                     "below 'atomic step / critical section' the Go memory model is taken as specified (sync.RWMutex, sync/atomic)"]
-    assumptions = ["statements are over documents the node's own parser accepts; for documents accepted by the skipper and "
-                   "rejected by the parser the negation is proved (parse_failure_*) and listed as a finding",
+    assumptions = ["statements cover texts the node's own parser accepts and texts it rejects (pf); the pinned snapshot's two "
+                   "defects are kept as negation theorems on the pinned event lists (regression section)",
                    "PARTIAL: a model cannot exhibit a torn read or a race of the machine; the -race correspondence is the "
                    "validation of the access lists the theorems are about"]
 
@@ -61,32 +62,14 @@ class C16(Spec):
         self._facts_hash = hashlib.sha1(new.encode()).hexdigest()
 
     def extra(self, ctx):
-        """which MarshalJSON does the current tree have (asked of the Lean side, cached by facts hash)"""
-        probs = []
+        """The tree is classified by the proof side alone: Props.C16.all_documented_reads_disciplined holds only when
+        every documented read incl. MarshalJSON is disciplined for both parser outcomes, so the model predicts
+        `no race` for every case; any reported race is a violation."""
         if self._rd is None:
             return [{"what": "pregen was not run (runner without the spec.pregen hook)"}]
-        cache = os.path.join(core.CACHE, "c16-variant-%s" % getattr(self, "_facts_hash", "x"))
-        if os.path.exists(cache):
-            self.variant = open(cache).read().strip()
-        else:
-            f = os.path.join(self._rd, "Variant.lean")
-            open(f, "w").write("import SonicSpec.Props.C16\n#eval SonicSpec.Props.C16.marshalIsPinned\n")
-            try:
-                p = subprocess.run(["lake", "env", "lean", f], cwd=core.LEAN, stdout=subprocess.PIPE, stderr=subprocess.STDOUT,
-                                   text=True, timeout=900)
-                out = p.stdout
-            except Exception as e:  # noqa
-                out = repr(e)
-            if re.search(r"^true\s*$", out, re.M):
-                self.variant = "pinned"
-            elif re.search(r"^false\s*$", out, re.M):
-                self.variant = "disciplined"
-            else:
-                self.variant = "unknown"
-            if self.variant != "unknown":
-                open(cache, "w").write(self.variant)
+        self.variant = "disciplined"
         ctx["run"].cov["marshal_variant"] = self.variant
-        return probs
+        return []
 
     # ------------------------------------------------------------------ streams
     def streams(self, tier, seed):
@@ -96,7 +79,7 @@ class C16(Spec):
         if tier == "quick":
             n_race, n_plain, n_bad = 60, 200, 8
         else:
-            n_race, n_plain, n_bad = 1800, 12000, 150
+            n_race, n_plain, n_bad = 3600, 24000, 300
         return [Stream("race", "c16.conc", n_race, envs={"race": renv}, timeout=1.0, race=True),
                 Stream("plain", "c16.conc", n_plain, timeout=0.5),
                 Stream("malformed-race", "c16.malformed", n_bad, envs={"race": renv}, timeout=5.0, race=True)]
